@@ -275,8 +275,9 @@ class C12(Prop):
             return "ok"
         try:
             return "ok" if fc.conforms(x, name) else "fail"
-        except Exception:
-            return "propagate"
+        except Exception as e:
+            # a built-in function registered with its `raises` never lets anything out of conforms()
+            return "builtin-raises:" + impl.tname(e)
 
     # -- flat schema, checker present
     def check_flat(self, case, res, d, cls):
@@ -301,6 +302,10 @@ class C12(Prop):
             m = self.model_for(fc, sc, name, x)
             if sc is not None:
                 del sc.raised[:]
+            if m.startswith("builtin-raises"):
+                res.fail(("flat", "builtin-checker-raises", name, m.split(":")[1]),
+                         "checker=%s: conforms(%s, %r) raised" % (case["checker"]["kind"], impl.cj(x)[:100], name))
+                continue
             res.labels.append("model:" + m)
             base = sorted(key_nocause(e) for e in cls(rest).iter_errors(copy.deepcopy(x)))
             try:
@@ -377,7 +382,7 @@ class C12(Prop):
             def cb(name, inst):
                 m = self.model_for(fc_model, sc_model, name, inst)
                 hit.append(m)
-                if m == "propagate":
+                if m == "propagate" or m.startswith("builtin-raises"):
                     raise spec.Unsupported("scripted unlisted raise reached")
                 return m == "ok"
             fc_model, sc_model = build_checker(d, case["checker"])
